@@ -6,12 +6,13 @@ EXTRA={'C01':['C04'],'C02':['C04','C09'],'C04':['C01','C02'],'C09':['C04','C07']
 stored='--stored' in sys.argv
 round2='--round2' in sys.argv
 round3='--round3' in sys.argv
+round4='--round4' in sys.argv
 flt=[a for a in sys.argv[1:] if not a.startswith('--')]
 jobs=[]
-base='/verif/seeded' if stored else ('/tmp/seed3-out' if round3 else '/tmp/seed2-out' if round2 else '/tmp/seed-out')
+base='/verif/seeded' if stored else ('/tmp/seed4-out' if round4 else '/tmp/seed3-out' if round3 else '/tmp/seed2-out' if round2 else '/tmp/seed-out')
 for d in sorted(os.listdir(base)):
     if stored:
-        m=re.match(r'(C\d\d)-([abcdef])$',d)
+        m=re.match(r'(C\d\d)-([abcdefgh])$',d)
         if not m: continue
         pid,x=m.groups(); path=os.path.join(base,d)
         jobs.append((pid,x,path))
@@ -25,6 +26,8 @@ jobs=[j for j in jobs if not flt or j[0] in flt]
 def run(job):
     pid,x,path=job
     ids=[pid]+EXTRA.get(pid,[])
+    if os.environ.get('SEED_FAST')=='1':
+        ids=[pid]
     out=subprocess.run(['/verif/seeded_eval.sh',path]+ids,capture_output=True,text=True).stdout
     return job,out
 with concurrent.futures.ThreadPoolExecutor(3) as ex:
@@ -35,13 +38,21 @@ with concurrent.futures.ThreadPoolExecutor(3) as ex:
         confirmed=bool(m) and m.group(1)=='pass' and m.group(2)=='FAIL' and m.group(3)=='pass'
         caught=re.findall(r'CAUGHT by (C\d\d): *(.*)',out)
         missed=re.findall(r'MISSED by (C\d\d)',out)
-        dst='/verif/seeded/%s-%s'%(pid,({'a':'e','b':'f'}[x] if round3 else {'a':'c','b':'d'}[x] if round2 else x))
+        dst='/verif/seeded/%s-%s'%(pid,({'a':'g','b':'h'}[x] if round4 else {'a':'e','b':'f'}[x] if round3 else {'a':'c','b':'d'}[x] if round2 else x))
         if not stored:
             if not confirmed:
                 print('NOT CONFIRMED - not stored'); continue
             os.makedirs(dst,exist_ok=True)
             for f in ('patch.diff','demo_test.go','notes.md'):
                 shutil.copy(os.path.join(path,f),os.path.join(dst,f))
+        if os.environ.get('SEED_FAST')=='1' and os.path.exists(os.path.join(dst,'meta.json')):
+            old=json.load(open(os.path.join(dst,'meta.json')))
+            old['owning_check_last_verdict']='CAUGHT' if any(c==pid for c,_ in caught) else 'MISSED'
+            for c,msg in caught:
+                old.setdefault('caught_by',{})[c]=msg[:200]
+                if c in old.get('missed_by',[]): old['missed_by'].remove(c)
+            json.dump(old,open(os.path.join(dst,'meta.json'),'w'),indent=1)
+            continue
         meta={'property':pid,'variant':x,'breaks':pid,
               'needs_to_manifest':open(os.path.join(dst if not stored else path,'notes.md')).read()[:1500],
               'confirmed':{'demo_passes_on_clean_tree':m.group(1)=='pass' if m else None,'demo_fails_with_change':m.group(2)=='FAIL' if m else None,'repo_suite_passes_with_change':m.group(3)=='pass' if m else None},
